@@ -61,6 +61,8 @@ def run(chk, tier, only_rule=None):
     r18_11(chk, facts)
     r18_13(chk, facts)
     if only_rule is None:
+        from . import c08
+        c08.r08_6(chk, tier, units=('csv',), floor=6)     # a reused CSV encoder / column filter starts the next table empty
         # CSV text is read through text_source_adaptor: its byte-order-mark test must apply to the first chunk only (a U+FEFF that starts a
         # later chunk is field content)
         from . import c02
